@@ -262,6 +262,14 @@ def shared_constraint_toys():
     p3 = cl.Problem(cl.MAX, 2 * x[0] + x[1], [cc, cb, ca])
     out.append(('shared_constraints_reordered', p3.solve(solver='ECOS', verbose=False), 9.0))
     out.append(('shared_constraints_first_again', p1.solve(solver='ECOS', verbose=False), 7.0))
+    # two separately built constraints with EQUAL atoms, each compiled in a Problem of its own first, then listed together (both orders)
+    ze = cl.Variable(shape=(1,), name='ze')
+    e1 = cl.weighted_sum_exp(np.array([1.0]), ze) <= 2
+    e2 = cl.weighted_sum_exp(np.array([1.0]), ze) <= 5
+    out.append(('equal_atoms_first_alone', cl.Problem(cl.MAX, ze[0], [e1]).solve(solver='ECOS', verbose=False), math.log(2.0)))
+    out.append(('equal_atoms_second_alone', cl.Problem(cl.MAX, ze[0], [e2]).solve(solver='ECOS', verbose=False), math.log(5.0)))
+    out.append(('equal_atoms_together', cl.Problem(cl.MAX, ze[0], [e2, e1]).solve(solver='ECOS', verbose=False), math.log(2.0)))
+    out.append(('equal_atoms_together_other_order', cl.Problem(cl.MAX, ze[0], [e1, e2]).solve(solver='ECOS', verbose=False), math.log(2.0)))
     # sum of exponentials with a repeated argument: exp(x0) + exp(x0) + 2 exp(x1) <= 1, max x0 + x1 = log(1/4) + log(1/4)
     y = cl.Variable(shape=(2,), name='y')
     alpha = np.array([[1.0, 0.0], [1.0, 0.0], [0.0, 1.0]])
